@@ -125,6 +125,9 @@ var ExcludedForms = []ExcludedForm{
 	{Name: "dash_anon_struct_tagged", Decl: "DashB%d struct {\n\t\tA int32 `parquet:\"a\"`\n\t} `parquet:\"-\"`", Import: ""},
 	{Name: "dash_ptr_anon_struct_tagged", Decl: "DashP%d *struct {\n\t\tZ string `parquet:\"zz\" json:\"z\"`\n\t} `parquet:\"-\"`", Import: ""},
 	{Name: "lower_slice_anon_struct_tagged", Decl: "r%d []struct {\n\t\tK float64 `parquet:\"k\"`\n\t}", Import: ""},
+	// names whose first letter has no case (kanji) or is a title-case letter: unexported in Go
+	{Name: "caseless_first_letter", Decl: "名前%d string"},
+	{Name: "titlecase_first_letter", Decl: "ǅx%d int32"},
 	// an EMBEDDED struct that is itself tagged parquet:"-"
 	{Name: "dash_embedded_struct", Decl: "XEmb%d `parquet:\"-\"`", ExtraName: "XEmb%d", ExtraFields: []string{"Rev int32", "Note string"}},
 	{Name: "dash_embedded_struct_json", Decl: "XEmj%d `json:\"-\" parquet:\"-\"`", ExtraName: "XEmj%d", ExtraFields: []string{"Amount float64"}},
